@@ -4,7 +4,9 @@
 (* modules treat one at a time meet - current schema and name resolution      *)
 (* (C03), DML with true counts (C04), failing statements that change nothing  *)
 (* (C07), transactions (C13), session variables (C15), execute_string and     *)
-(* no-op'd statements (C16), reading description (C06).                       *)
+(* no-op'd statements (C16), reading description (C06), a result set that     *)
+(* stays open on its cursor while everything else goes on (C05), and DDL on a *)
+(* second table U whose existence every catalog view has to show (C09).       *)
 (*                                                                            *)
 (* After EVERY operation the whole projected state is observed: what each     *)
 (* connection reports and what CURRENT_SCHEMA() says, the value of each       *)
@@ -14,9 +16,13 @@
 (* inside a script inside a transaction after a USE ...).                     *)
 (*                                                                            *)
 (*   tab[s]            committed contents of table s.T  (s in {"S1","S2"})    *)
+(*   u                 schemas in which the (empty) table U exists, committed *)
 (*   s[c].sc           current schema of connection c                         *)
 (*   s[c].var          value of the session variable N of c (0: not set)      *)
 (*   s[c].tx, add, del open transaction and its pending work per table        *)
+(*   s[c].uadd, udel   pending creations / drops of U                         *)
+(*   s[c].open, rows   the connection's result cursor: holds a result, and    *)
+(*                     the rows of it that have not been handed out yet       *)
 (*                                                                            *)
 (* The ideal is READ COMMITTED; the engine gives snapshot isolation (known    *)
 (* finding C13.reader_transaction_snapshot), so the vocabulary keeps the two  *)
@@ -26,36 +32,48 @@
 EXTENDS FsBase
 CONSTANTS Conn,           \* {"c1", "c2"}
           ScriptsUsed,    \* BOOLEAN: two-statement scripts in the vocabulary
-          TgtUsed         \* subset of {"u", "S1", "S2"}: how DML names its table (unqualified / qualified)
+          TgtUsed,        \* subset of {"u", "S1", "S2"}: how DML names its table (unqualified / qualified)
+          Feat            \* subset of {"cur", "ddl", "dml2"}: open results / DDL on U / UPDATE, multi-row INSERT, DELETE of all rows
 
 AllDevs == {}
 Schemas == {"S1", "S2"}
 OwnVals(c) == IF c = "c1" THEN {1, 2} ELSE {3, 4}
 Other(c) == CHOOSE d \in Conn : d # c
 Empty2 == [x \in Schemas |-> {}]
-Idle(sc, var) == [sc |-> sc, var |-> var, tx |-> FALSE, add |-> Empty2, del |-> Empty2]
-InitSt == [tab |-> Empty2, s |-> [c \in Conn |-> Idle("S1", 0)]]
+Idle(sc, var, open, rows) == [sc |-> sc, var |-> var, tx |-> FALSE, add |-> Empty2, del |-> Empty2, uadd |-> {}, udel |-> {},
+                              open |-> open, rows |-> rows]
+InitSt == [tab |-> Empty2, u |-> {}, s |-> [c \in Conn |-> Idle("S1", 0, FALSE, <<>>)]]
 
 Visible(st, c, t) == (st.tab[t] \ st.s[c].del[t]) \cup st.s[c].add[t]
+VisibleU(st, c) == (st.u \ st.s[c].udel) \cup st.s[c].uadd
 Sorted(S) == [j \in 1..Cardinality(S) |-> CHOOSE v \in S : Cardinality({w \in S : w < v}) = j - 1]
+SortedNames(S) == SelectSeq(<<"S1", "S2">>, LAMBDA n : n \in S)
 ConnSeq == <<"c1", "c2">>
 
 \* ---- what is observed after every operation ----
 Snap(st) == [ctx |-> [j \in 1..2 |-> <<st.s[ConnSeq[j]].sc, st.s[ConnSeq[j]].sc>>],        \* <<conn.schema, CURRENT_SCHEMA()>>
              var |-> [j \in 1..2 |-> st.s[ConnSeq[j]].var],
-             vis |-> [j \in 1..2 |-> <<Sorted(Visible(st, ConnSeq[j], "S1")), Sorted(Visible(st, ConnSeq[j], "S2"))>>]]
-Obs(res, st) == [res |-> res, snap |-> Snap(st)]
+             vis |-> [j \in 1..2 |-> <<Sorted(Visible(st, ConnSeq[j], "S1")), Sorted(Visible(st, ConnSeq[j], "S2"))>>],
+             \* where U exists: <<by information_schema.tables, by the engine's own catalog>> as each connection sees it
+             cat |-> [j \in 1..2 |-> <<SortedNames(VisibleU(st, ConnSeq[j])), SortedNames(VisibleU(st, ConnSeq[j]))>>]]
+Obs(res, st) == [res |-> res, got |-> <<>>, snap |-> Snap(st)]
+ObsGot(res, got, st) == [res |-> res, got |-> got, snap |-> Snap(st)]
 
 \* ---- single statements: Apply(st, c, a) = [post, r]  (r: the statement's own outcome) ----
 Target(st, c, a) == IF a.tgt = "u" THEN st.s[c].sc ELSE a.tgt                  \* an unqualified T is the current schema's
 Value(st, c, a) == IF a.src = "var" THEN st.s[c].var ELSE a.v
-IsErrR(r) == r \in {"err:novar", "err:missing"}
+IsErrR(r) == r \in {"err:novar", "err:missing", "err:exists"}
 
-Write(st, c, t, v, ins) ==
-  LET x == st.s[c] IN
-  IF x.tx THEN IF ins THEN [st EXCEPT !.s[c].add[t] = @ \cup {v}]
-               ELSE [st EXCEPT !.s[c].add[t] = @ \ {v}, !.s[c].del[t] = IF v \in st.tab[t] THEN @ \cup {v} ELSE @]
-  ELSE IF ins THEN [st EXCEPT !.tab[t] = @ \cup {v}] ELSE [st EXCEPT !.tab[t] = @ \ {v}]
+\* the table t as connection c sees it becomes V: at once outside a transaction, as pending work inside one (nobody else
+\* writes meanwhile - see the header - so the committed contents are what they were at BEGIN)
+SetVisible(st, c, t, V) ==
+  IF st.s[c].tx THEN [st EXCEPT !.s[c].add[t] = V \ st.tab[t], !.s[c].del[t] = st.tab[t] \ V]
+  ELSE [st EXCEPT !.tab[t] = V]
+Write(st, c, t, v, ins) == SetVisible(st, c, t, IF ins THEN Visible(st, c, t) \cup {v} ELSE Visible(st, c, t) \ {v})
+SetVisibleU(st, c, W) ==
+  IF st.s[c].tx THEN [st EXCEPT !.s[c].uadd = W \ st.u, !.s[c].udel = st.u \ W]
+  ELSE [st EXCEPT !.u = W]
+CountStr(n) == CASE n = 0 -> "count:0" [] n = 1 -> "count:1" [] n = 2 -> "count:2" [] n = 3 -> "count:3" [] OTHER -> "count:4"
 
 Apply(st, c, a) ==
   LET x == st.s[c] IN
@@ -68,7 +86,25 @@ Apply(st, c, a) ==
               IF a.k = "ins" THEN [post |-> Write(st, c, t, v, TRUE), r |-> "count:1"]
               ELSE [post |-> Write(st, c, t, v, FALSE), r |-> IF hit = 1 THEN "count:1" ELSE "count:0"]
     [] a.k = "fail"  -> [post |-> st, r |-> "err:missing"]                         \* unknown table / column / schema
-    [] a.k \in {"nop", "descr", "sel"} -> [post |-> st, r |-> "ok"]
+    [] a.k \in {"nop", "descr"} -> [post |-> st, r |-> "ok"]
+    \* ---- more DML (C04): UPDATE of one value, a two-row INSERT, DELETE without predicate
+    [] a.k = "upd" ->
+         LET t == Target(st, c, a)  V == Visible(st, c, t) IN
+         IF a.v \in V THEN [post |-> SetVisible(st, c, t, (V \ {a.v}) \cup {a.w}), r |-> "count:1"]
+         ELSE [post |-> st, r |-> "count:0"]
+    [] a.k = "ins2" ->
+         LET t == Target(st, c, a) IN [post |-> SetVisible(st, c, t, Visible(st, c, t) \cup OwnVals(c)), r |-> "count:2"]
+    [] a.k = "delall" ->
+         LET t == Target(st, c, a) IN [post |-> SetVisible(st, c, t, {}), r |-> CountStr(Cardinality(Visible(st, c, t)))]
+    \* ---- DDL on the table U (C09 / C03): plain, IF NOT EXISTS / IF EXISTS
+    [] a.k = "mk" ->
+         LET t == Target(st, c, a) IN
+         IF t \in VisibleU(st, c) THEN (IF a.soft THEN [post |-> st, r |-> "ok"] ELSE [post |-> st, r |-> "err:exists"])
+         ELSE [post |-> SetVisibleU(st, c, VisibleU(st, c) \cup {t}), r |-> "ok"]
+    [] a.k = "rm" ->
+         LET t == Target(st, c, a) IN
+         IF t \notin VisibleU(st, c) THEN (IF a.soft THEN [post |-> st, r |-> "ok"] ELSE [post |-> st, r |-> "err:missing"])
+         ELSE [post |-> SetVisibleU(st, c, VisibleU(st, c) \ {t}), r |-> "ok"]
     [] OTHER -> [post |-> st, r |-> "?"]
 
 \* ---- operations ----
@@ -78,11 +114,22 @@ Steps(st, op, D) ==
          LET s2 == [st EXCEPT !.s[op.c].tx = TRUE] IN {R(s2, Obs(<<"ok">>, s2))}
     [] op.k \in {"commit", "rollback"} ->
          LET tab2 == IF op.k = "commit" THEN [t \in Schemas |-> (st.tab[t] \ x.del[t]) \cup x.add[t]] ELSE st.tab
-             s2 == IF x.tx THEN [st EXCEPT !.tab = tab2, !.s[op.c] = Idle(x.sc, x.var)] ELSE st IN
+             u2 == IF op.k = "commit" THEN (st.u \ x.udel) \cup x.uadd ELSE st.u
+             s2 == IF x.tx THEN [st EXCEPT !.tab = tab2, !.u = u2, !.s[op.c] = Idle(x.sc, x.var, x.open, x.rows)] ELSE st IN
          \* through the connection's API nothing is returned; as SQL: the success status (inside a transaction the
          \* status row is not constrained by C13, outside it is the standard one)
          IF op.api = "conn" THEN {R(s2, Obs(<<"api">>, s2))}
          ELSE IF x.tx THEN {R(s2, Obs(<<"ok">>, s2)), R(s2, Obs(<<"none">>, s2))} ELSE {R(s2, Obs(<<"ok">>, s2))}
+    \* ---- the connection's result cursor (C05): SELECT v FROM T ORDER BY v opens a result with the rows visible NOW;
+    \* fetch calls hand them out in order, each once, whatever else has happened in between; then [] / None for ever
+    [] op.k = "sel" ->
+         LET rows == Sorted(Visible(st, op.c, Target(st, op.c, op)))
+             s2 == [st EXCEPT !.s[op.c].open = TRUE, !.s[op.c].rows = rows] IN
+         {R(s2, Obs(<<CountStr(Len(rows))>>, s2))}
+    [] op.k = "fetch" ->
+         LET n == IF op.how = "one" THEN 1 ELSE IF op.how = "many2" THEN 2 ELSE Len(x.rows)
+             s2 == [st EXCEPT !.s[op.c].rows = Slice(x.rows, n + 1, Len(x.rows))] IN
+         {R(s2, ObsGot(<<IF op.how = "one" /\ x.rows = <<>> THEN "none" ELSE "rows">>, Slice(x.rows, 1, n), s2))}
     [] op.k = "script" ->
          \* execute_string: the statements one by one, stopping at the first failure with the earlier ones applied
          LET a1 == Apply(st, op.c, op.items[1]) IN
@@ -108,12 +155,19 @@ Simple(st, c) ==
            \cup {a \in [k : {"del"}, src : {"lit", "var"}, v : OwnVals(c), tgt : TgtUsed] :
                  (a.src = "var" => a.v = 1 \/ a.v = 3)}
         ELSE {})
+  \cup (IF "dml2" \in Feat /\ MayWrite(st, c)
+        THEN {a \in [k : {"upd"}, v : OwnVals(c), w : OwnVals(c), tgt : TgtUsed] :
+                 a.v # a.w /\ a.w \notin Visible(st, c, Target(st, c, a))}                \* (T stays a set of values)
+           \cup {a \in [k : {"ins2"}, tgt : TgtUsed] : OwnVals(c) \cap Visible(st, c, Target(st, c, a)) = {}}
+           \cup [k : {"delall"}, tgt : TgtUsed]
+        ELSE {})
+  \cup (IF "ddl" \in Feat /\ MayWrite(st, c) THEN [k : {"mk", "rm"}, soft : BOOLEAN, tgt : TgtUsed] ELSE {})
   \cup [k : {"fail"}, why : {"notable", "nocol", "nosch"}]
   \cup [k : {"nop", "descr"}]
 
 \* statements of a script: unqualified DML only (the qualified forms are covered as single statements)
 ScriptItems(st, c) == {a \in Simple(st, c) : a.k \in {"use", "set", "unset", "nop"} \/ (a.k = "fail" /\ a.why = "notable")
-                                              \/ (a.k \in {"ins", "del"} /\ a.tgt = "u")}
+                                              \/ (a.k \in {"ins", "del", "delall", "mk", "rm"} /\ a.tgt = "u")}
 \* HOW a statement is run (cursor.execute / execute_string of one statement / a bound parameter; a long-lived or a fresh
 \* cursor) is not part of the operation: by C16 / C08 / C05 the forms are equivalent, the driver picks one per statement
 \* (seeded by the behaviour's identity) and records it next to the operation
@@ -125,8 +179,13 @@ Ops(st) ==
     \cup [k : {"commit", "rollback"}, c : {c}, api : {"sql", "conn"}]
     \cup (IF ScriptsUsed
           THEN UNION {{[k |-> "script", c |-> c, items |-> <<a1, a2>>] : a2 \in ScriptItems(Apply(st, c, a1).post, c)} :
-                      a1 \in {a \in ScriptItems(st, c) : a.k \in {"use", "set"} \/ (a.k = "ins" /\ a.src = "lit")}}
+                      a1 \in {a \in ScriptItems(st, c) : a.k \in {"use", "set"} \/ (a.k = "ins" /\ a.src = "lit")
+                                                           \/ (a.k = "mk" /\ ~a.soft)}}
                \* (first statements: the ones with an effect the second one can depend on; keeps scripts from crowding the walks)
+          ELSE {})
+    \* the result cursor: a query over T, and the fetch calls once a result is there
+    \cup (IF "cur" \in Feat
+          THEN [k : {"sel"}, c : {c}, tgt : TgtUsed] \cup (IF st.s[c].open THEN [k : {"fetch"}, c : {c}, how : {"one", "many2", "all"}] ELSE {})
           ELSE {})
     : c \in Conn}
 IsErr(r) == IsErrR(r.obs.res[Len(r.obs.res)])
@@ -144,8 +203,18 @@ StepOk(st, op, r) ==
   \* C13 atomic: committed data changes only at COMMIT (by exactly the pending work) or by an autocommitted write
   /\ (r.post.tab # st.tab =>
         \/ (op.k = "commit" /\ x.tx /\ \A t \in Schemas : r.post.tab[t] = (st.tab[t] \ x.del[t]) \cup x.add[t])
-        \/ (~x.tx /\ (op.k \in {"ins", "del"} \/ ScriptTouches(op, {"ins", "del"}))))
-  /\ (op.k = "rollback" => r.post.tab = st.tab /\ ~y.tx /\ y.add = Empty2 /\ y.del = Empty2)
+        \/ (~x.tx /\ (op.k \in {"ins", "del", "upd", "ins2", "delall"} \/ ScriptTouches(op, {"ins", "del", "delall"}))))
+  \* ... and so does the catalog (C09: what exists is what was created and not dropped)
+  /\ (r.post.u # st.u =>
+        \/ (op.k = "commit" /\ x.tx /\ r.post.u = (st.u \ x.udel) \cup x.uadd)
+        \/ (~x.tx /\ (op.k \in {"mk", "rm"} \/ ScriptTouches(op, {"mk", "rm"}))))
+  /\ (op.k = "rollback" => r.post.tab = st.tab /\ r.post.u = st.u /\ ~y.tx /\ y.add = Empty2 /\ y.del = Empty2
+                                               /\ y.uadd = {} /\ y.udel = {})
+  \* C05: an open result changes only by the connection's own query / fetch calls on that cursor; fetch calls hand out a
+  \* prefix of what is left
+  /\ (y.open # x.open \/ y.rows # x.rows => op.k \in {"sel", "fetch"})
+  /\ (op.k = "fetch" => /\ r.obs.got \o y.rows = x.rows
+                        /\ r.post = [st EXCEPT !.s[op.c].rows = y.rows])
   \* C07: a failing single statement changes nothing at all; C16 no-op / C06 description: neither
   /\ (op.k # "script" /\ IsErr(r) => r.post = st)
   /\ (op.k \in {"nop", "descr", "fail"} => r.post = st)
